@@ -16,7 +16,7 @@ mkdir -p "$VERIF/.work" "$VERIF/evidence" "$VERIF/replays"
 build() {
   local log
   log="$(mktemp "$VERIF/.work/build.XXXXXX")"
-  if ! cargo build --offline "$@" >"$log" 2>&1; then
+  if ! CARGO_TARGET_DIR="$VERIF/harness/target" cargo build --offline "$@" >"$log" 2>&1; then
     grep -E '^(error|warning: unused)' -A12 "$log" | head -80
     echo "MACHINERY-ERROR: harness build failed (cargo build $*)"
     rm -f "$log"
